@@ -562,6 +562,16 @@ def check_model(ctx, V, sos, dicts, hists, index, b3, base_case, save_load=False
             else:
                 exp0 = m.exp[t]
             compare("full", lambda: lm(hist), exp0, {"T": t})
+            # ---- the same history handed in as a view: behind two foreign rows of a larger tensor
+            # (non-zero storage offset) and as the transpose of a (B, T) tensor (non-contiguous) ----
+            if t == T and t >= 1:
+                front = (hist[:1] + 1).remainder(V).expand(2, hist.size(1))
+                off_view = torch.cat([front, hist], 0)[2:]
+                nc_view = hist.t().contiguous().t()
+                compare("full/offset-view", lambda: lm(off_view), exp0, {"T": t, "layout": "offset"})
+                compare("full/transposed-view", lambda: lm(nc_view), exp0, {"T": t, "layout": "transposed"})
+                compare("chunked/offset-view", lambda: lm.calc_full_log_probs_chunked(off_view, dict(), 2), exp0,
+                        {"T": t, "chunk_size": 2, "layout": "offset"})
             # ---- chunked -------------------------------------------------------------------------
             for c in range(1 if (t == T or every_chunk) else 2, t + 3):
                 compare("chunked", lambda: lm.calc_full_log_probs_chunked(hist, dict(), c), exp0,
